@@ -91,7 +91,11 @@ type Request struct {
 	uri      URI
 	postArgs Args
 
-	bodyStream      io.Reader
+	bodyStream io.Reader
+	// bodyStreamErr: reading the body stream into the body buffer failed (BodyE);
+	// the body is not available, asking again does not make the part that was
+	// read the body
+	bodyStreamErr   error
 	w               requestBodyWriter
 	body            *bytebufferpool.ByteBuffer
 	bodyRaw         []byte
@@ -408,6 +412,7 @@ func (req *Request) BodyBytes() []byte {
 // ResetBody resets request body.
 func (req *Request) ResetBody() {
 	req.bodyRaw = nil
+	req.bodyStreamErr = nil
 	req.RemoveMultipartFormFiles()
 	req.CloseBodyStream() //nolint:errcheck
 	if req.body != nil {
@@ -702,9 +707,14 @@ func (req *Request) BodyE() ([]byte, error) {
 		_, err := utils.CopyZeroAlloc(zw, req.bodyStream)
 		req.CloseBodyStream() //nolint:errcheck
 		if err != nil {
+			bodyBuf.Reset()
+			req.bodyStreamErr = err
 			return nil, err
 		}
 		return req.BodyBytes(), nil
+	}
+	if req.bodyStreamErr != nil {
+		return nil, req.bodyStreamErr
 	}
 	if req.OnlyMultipartForm() {
 		body, err := MarshalMultipartForm(req.multipartForm, req.multipartFormBoundary)
